@@ -23,6 +23,11 @@ CLAIMED = {
    note="Trusted: the ring model in props/c14.rs, virtio-queue getters as observation of the queue, the barrier listener. Non-power-of-two sizes within the maximum are outside the statement and only counted. Refused requests end the connection (daemon policy); the harness reconnects to the same daemon.",
    technique="model-based (stateful) property testing with proptest histories vs. ring-configuration reference model",
    ref="DESIGN.md section 3, C14"),
+ "C15": dict(level="exploration",
+   text="Stateful property testing of a real daemon with the dirty-log bitmap: random histories mixing SET_LOG_BASE (windows from too small to ample, non-zero and unaligned offsets), writes through every guest-memory entry point incl. used-ring updates and direct mark_dirty with zero/huge lengths, and memory-table changes; after every step each log file is read back with pread and must equal the expected page bitmap inside the window and zero elsewhere (both directions: no missing and no extra bit, nothing outside the mapping). Plus a stress part with 2..16 writers on bits of the same log byte(s), 24k barrier-released rounds in quick.",
+   note="Trusted: the page-set model in props/c15.rs, pread on the memfd as an observation independent of the crate. Lost updates of a non-atomic read-modify-write are detected only probabilistically (stress, not schedule control). While logging, a table change the log window cannot cover may be refused (then the old table must stay).",
+   technique="model-based property testing (proptest histories vs. page-set model) + multi-thread stress for atomicity",
+   ref="DESIGN.md section 3, C15"),
  "C17": dict(level="exploration",
    text="Every queues-per-thread configuration with num_queues<=4 and <=2 worker masks (quick; <=3 masks thorough), each mask any value below 2^(num_queues+2), is built as a real daemon and every queue is kicked once (exhaustive over that finite sub-space), plus sampled configurations up to 6 queues x 3 threads; owner thread, event id (rank), ring-slice length and ring identity (size 2^(q+1)) are compared with the first-principles formula, other workers must stay silent (double barrier on every worker), dropping the daemon must terminate the workers through the exit event. Custom listener ids over the 64-bit range must be delivered exactly or refused.",
    note="Trusted: the double barrier, the first-principles owner/rank formula in props/c17.rs. Queues in no mask: only silence is checked. Listener ids that cannot be delivered may be refused (acceptance creates the obligation). A hung teardown is diagnosed after 10 s with the worker threads' states and ends the run as a violation.",
